@@ -31,7 +31,7 @@ fn declare() {
 fn kinds(mask: u32) {
     use crate::instruction::verif_gate::*;
     declare();
-    crate::variable::verif_valgate::allow_vals(1 << crate::variable::verif_valgate::V_ARRAY);
+    crate::variable::verif_valgate::allow_vals(0);
     allow_mask((1 << K_VARIABLE) | mask);
 }
 use crate::instruction::verif_gate::{K_ARRAYREPEAT, K_BINOPERATION, K_BLOCK, K_IFELSE, K_SET, K_UNARYOPERATION};
